@@ -216,6 +216,8 @@ Lemma try_u16_emit : forall z v, try_u16 z = Emit v -> v = z /\ fits_u16 z = tru
 Proof. intros z v H. unfold try_u16 in H. destruct (fits_u16 z); [inversion H; auto|discriminate]. Qed.
 Lemma try_u16_not_panic : forall z, try_u16 z <> Panic.
 Proof. intro z. unfold try_u16. destruct (fits_u16 z); discriminate. Qed.
+Lemma try_i16_emit : forall z v, try_i16 z = Emit v -> v = z /\ fits_i16 z = true.
+Proof. intros z v H. unfold try_i16 in H. destruct (fits_i16 z); [inversion H; auto|discriminate]. Qed.
 Lemma unwrap_u16_emit : forall z v, unwrap_u16 z = Emit v -> v = z /\ fits_u16 z = true.
 Proof. intros z v H. unfold unwrap_u16 in H. destruct (fits_u16 z); [inversion H; auto|discriminate]. Qed.
 
@@ -271,8 +273,22 @@ Lemma refines_arith : forall fits wrap z, refines (arith fits wrap Debug z) (ari
 Proof. intros fits wrap z. unfold refines, arith. destruct (fits z); auto. Qed.
 
 (* ---- coordinate deltas ----------------------------------------------------------------------- *)
-Fixpoint diffs_fitb (last : Z) (l : list Z) : bool :=
-  match l with [] => true | x :: t => fits_i16 (x - last) && diffs_fitb x t end.
+(* the exact differences *)
+Fixpoint diff_list (last : Z) (l : list Z) : list Z :=
+  match l with [] => [] | x :: t => (x - last) :: diff_list x t end.
+
+Lemma undeltas_diff_list : forall l last, undeltas last (diff_list last l) = l.
+Proof.
+  induction l as [|x t IH]; intros last; cbn; [reflexivity|].
+  replace (last + (x - last)) with x by lia. now rewrite IH.
+Qed.
+
+Lemma deltas_fit_eq : forall p l last, diffs_fitb last l = true -> deltas p last l = Emit (diff_list last l).
+Proof.
+  intros p. induction l as [|x t IH]; intros last H; cbn in *; [reflexivity|].
+  apply andb_true_iff in H. destruct H as [H1 H2].
+  unfold sub_i16. rewrite (arith_fits _ _ p _ H1). cbn. rewrite (IH _ H2). reflexivity.
+Qed.
 
 Lemma deltas_fit : forall p l last, diffs_fitb last l = true ->
   exists ds, deltas p last l = Emit ds /\ undeltas last ds = l /\ length ds = length l.
